@@ -256,10 +256,13 @@ pub mod child {
             .stderr(Stdio::piped())
             .spawn()
             .expect("spawn child");
-        {
-            let mut si = ch.stdin.take().unwrap();
-            let _ = si.write_all(input);
-        }
+        // readers are started before stdin is fed (from its own thread), so a child that answers
+        // while it is still reading cannot dead-lock on full pipes
+        let mut si = ch.stdin.take().unwrap();
+        let input_owned = input.to_vec();
+        let t_in = std::thread::spawn(move || {
+            let _ = si.write_all(&input_owned);
+        });
         let mut so = ch.stdout.take().unwrap();
         let mut se = ch.stderr.take().unwrap();
         let t_out = std::thread::spawn(move || {
@@ -282,6 +285,7 @@ pub mod child {
                 s
             }
         });
+        let _detached = t_in;
         let start = Instant::now();
         loop {
             match ch.try_wait().unwrap() {
@@ -412,6 +416,25 @@ pub fn catch<T>(f: impl FnOnce() -> T) -> Result<T, String> {
             "panic".to_string()
         }
     })
+}
+
+thread_local! {
+    static LAST_PANIC_LOC: std::cell::RefCell<Option<String>> = std::cell::RefCell::new(None);
+}
+
+/// Silence panics but remember where the last one on this thread happened (`file:line` with
+/// the `/repo/` prefix removed): the *call site* is what identifies a defect in a fingerprint.
+pub fn capture_panics() {
+    std::panic::set_hook(Box::new(|info| {
+        let loc = info
+            .location()
+            .map(|l| format!("{}:{}", l.file().trim_start_matches("/repo/"), l.line()));
+        LAST_PANIC_LOC.with(|c| *c.borrow_mut() = loc);
+    }));
+}
+
+pub fn last_panic_location() -> Option<String> {
+    LAST_PANIC_LOC.with(|c| c.borrow_mut().take())
 }
 
 pub fn quiet_panics() {
